@@ -392,6 +392,12 @@ func (t *c11Ty) goType() reflect.Type {
 			}
 			return reflect.TypeOf(c11S1{})
 		}
+		if t.marker == "2" {
+			if t.String() != c11W16Desc {
+				panic("c11: st#2 descriptor mismatch")
+			}
+			return reflect.TypeOf(c11W16{})
+		}
 		var fs []reflect.StructField
 		for i, s := range t.sub {
 			f := reflect.StructField{Name: fmt.Sprintf("F%d", i), Type: s.goType()}
@@ -741,6 +747,9 @@ func c11GenTy(r *vhRng, depth int, prepop bool) *c11Ty {
 		if r.Chance(1, 8) {
 			return c11ParseTy(c11S1Desc)
 		}
+		if r.Chance(1, 7) {
+			return c11GenWideSt(r)
+		}
 		n := r.Intn(5)
 		t := &c11Ty{kind: "st"}
 		perm := []int{}
@@ -831,9 +840,12 @@ func c11GenVal(r *vhRng, t *c11Ty) string {
 	case "st":
 		xs := make([]string, len(t.sub))
 		for i, s := range t.sub {
-			if t.tags[i] == "-" {
+			switch {
+			case t.tags[i] == "-":
 				xs[i] = "0"
-			} else {
+			case len(t.sub) > 12 && (s.kind == "u8" || s.kind == "u16") && !r.Chance(1, 10):
+				xs[i] = strconv.Itoa(i + 1) // distinct, so that a permutation of the fields shows
+			default:
 				xs[i] = c11GenVal(r, s)
 			}
 		}
@@ -916,6 +928,108 @@ func c11SeqOfZeroSize(t *c11Ty) bool {
 		}
 	}
 	return false
+}
+
+// fieldOrder is the canonical encoding order of a struct's fields, computed from the descriptor
+// alone (NOT with scale.go's fieldScaleIndices, which is under test): the tagged fields by ascending
+// tag, then the untagged ones in declaration order; "-" (and unexported) fields are left out.
+func (t *c11Ty) fieldOrder() []int {
+	type tf struct{ idx, tag int }
+	var tagged []tf
+	var untagged []int
+	for i, tag := range t.tags {
+		switch tag {
+		case "":
+			untagged = append(untagged, i)
+		case "-":
+		default:
+			k, err := strconv.Atoi(tag)
+			if err != nil {
+				panic("c11: bad tag " + tag)
+			}
+			tagged = append(tagged, tf{i, k})
+		}
+	}
+	sort.SliceStable(tagged, func(a, b int) bool { return tagged[a].tag < tagged[b].tag })
+	var out []int
+	for _, x := range tagged {
+		out = append(out, x.idx)
+	}
+	return append(out, untagged...)
+}
+
+// c11W16 is a declared (hence cached by name) wide struct: 16 fields, tags interleaved with
+// untagged fields, one ignored field.
+type c11W16 struct {
+	F0  uint8
+	F1  uint8 `scale:"3"`
+	F2  uint8
+	F3  uint16
+	F4  uint8 `scale:"1"`
+	F5  uint8
+	F6  uint8 `scale:"-"`
+	F7  uint8
+	F8  bool
+	F9  uint8 `scale:"2"`
+	F10 uint8
+	F11 uint16
+	F12 uint8
+	F13 uint8 `scale:"7"`
+	F14 uint8
+	F15 uint8
+}
+
+const c11W16Desc = "st#2(u8,u8@3,u8,u16,u8@1,u8,u8@-,u8,bool,u8@2,u8,u16,u8,u8@7,u8,u8)"
+
+// c11GenWideSt draws a struct of 13..40 fields (more than 12: where an unstable sort shows): small
+// field types, and one tag / several tags / tags interleaved with untagged fields / some ignored.
+func c11GenWideSt(r *vhRng) *c11Ty {
+	if r.Chance(1, 6) {
+		return c11ParseTy(c11W16Desc)
+	}
+	n := r.Pick(13, 13, 14, 16, 20, 24, 33, 40, 13+r.Intn(28))
+	t := &c11Ty{kind: "st"}
+	style := r.Intn(4)
+	one := r.Intn(n)
+	tagv := r.Intn(7) - 3
+	for i := 0; i < n; i++ {
+		t.sub = append(t.sub, &c11Ty{kind: []string{"u8", "u8", "u8", "u16", "bool", "u8"}[r.Intn(6)]})
+		tag := ""
+		switch style {
+		case 0: // one tag
+			if i == one {
+				tag = strconv.Itoa(tagv)
+			}
+		case 1: // several tags, descending values
+			if r.Chance(1, 4) {
+				tag = strconv.Itoa(100 - i)
+			}
+		case 2: // interleaved
+			if i%2 == 1 {
+				tag = strconv.Itoa((i*7)%n - 5)
+			}
+		default: // mostly tagged, a few untagged
+			if !r.Chance(1, 5) {
+				tag = strconv.Itoa(n - i)
+			}
+		}
+		if tag == "" && r.Chance(1, 15) {
+			tag = "-"
+			t.sub[i] = &c11Ty{kind: "u8"}
+		}
+		t.tags = append(t.tags, tag)
+	}
+	// tags must be distinct (scale.go's order of equal tags is unspecified)
+	seen := map[string]bool{}
+	for i, tag := range t.tags {
+		if tag != "" && tag != "-" {
+			if seen[tag] {
+				t.tags[i] = ""
+			}
+			seen[tag] = true
+		}
+	}
+	return t
 }
 
 // c11ZeroElemDescs are element types whose SCALE encoding is empty.
@@ -1094,15 +1208,8 @@ func (e *c12Evil) app(out []byte, t *c11Ty, v reflect.Value) []byte {
 		}
 		return out
 	case "st":
-		_, idx, err := cache.fieldScaleIndices(v.Interface())
-		if err != nil {
-			panic(err)
-		}
-		for _, i := range idx {
-			if !v.Field(i.fieldIndex).CanInterface() {
-				continue
-			}
-			out = e.app(out, t.sub[i.fieldIndex], v.Field(i.fieldIndex))
+		for _, i := range t.fieldOrder() {
+			out = e.app(out, t.sub[i], v.Field(i))
 		}
 		return out
 	case "en":
@@ -1255,16 +1362,8 @@ func (sc *c12Scanner) walk(t *c11Ty, depth int) {
 			}
 		}
 	case "st":
-		_, idx, err := cache.fieldScaleIndices(reflect.New(t.goType()).Elem().Interface())
-		if err != nil {
-			sc.ok = false
-			return
-		}
-		v := reflect.New(t.goType()).Elem()
-		for _, i := range idx {
-			if v.Field(i.fieldIndex).CanInterface() {
-				sc.walk(t.sub[i.fieldIndex], depth+1)
-			}
+		for _, i := range t.fieldOrder() {
+			sc.walk(t.sub[i], depth+1)
 		}
 	case "en":
 		b := sc.take(1)
